@@ -26,6 +26,7 @@ var repoDir = func() string {
 	}
 	return "/repo"
 }()
+
 // verifDir is /verif; VERIF_DIR (development only, never set by a registered command) lets a
 // background run work from a snapshot of the committed tree while /verif is being edited.
 var verifDir = func() string {
@@ -34,6 +35,7 @@ var verifDir = func() string {
 	}
 	return "/verif"
 }()
+
 const modPath = "github.com/openacid/slim"
 
 var harnessPkgs = []string{"trie", "array", "encode", "index"}
